@@ -309,6 +309,19 @@ MANIFEST_TEXT["C16"] = {
     "text": "All eight feature combinations are built and monitored on the same sessions; cross-build transcript equality for sessions that avoid the disabled facility. Exploration.",
     "note": _SESSION_NOTE}
 
+# session closure (all keys incl. recall / completion / submit / application write, in small buffers) as an extra stage of
+# every session property
+_SCL_RULE = (" Session-closure stage: breadth-first over the hooked state of the real Cli (edited line, cursor, stored history bytes, history selection) for 16 (quick) / 42 (thorough) configurations "
+             "(command buffer 1..8, history buffer 0..9, four command sets, six prompts) under 13-14 keys (four characters of 1-3 bytes, Backspace, Left, Right, Up, Down, Tab, Enter, an application write): "
+             "every key is applied in every state first reached, by replaying the key path that reached it with all monitors of the property on; a configuration is either closed (no new state) or cut at a state budget "
+             "(60k quick / 1.5M thorough), in which case every state reachable by fewer keys than the reported depth has been expanded.")
+for _p in ("C01", "C05", "C06", "C10", "C11", "C13", "C15"):
+    PLANS[_p]["stages"].append({"variant": "dbg", "workload": _p + "-sclosure", "shards": 16})
+    PLANS[_p]["rule"] += _SCL_RULE
+    PLANS[_p]["min_counts"]["quick"].update({"sclosure.states": 300000})
+    PLANS[_p]["min_counts"]["thorough"].update({"sclosure.states": 5000000})
+PLANS["C16"]["rule"] += " The session-closure stage of C01/C05/... also runs in each of the eight builds (a quarter of the state budget) under that build's models."
+
 # ---------------------------------------------------------------- generated declarations (C09, C11 stage 2, C12)
 
 _BATCHES = {"batches_quick": [4, 30, 20], "batches_thorough": [12, 60, 40]}
